@@ -315,6 +315,7 @@ def run_to_completion(state: State, external_event: Union[dict, Event]) -> State
                 heads_matching: List[FlowHead] = []
                 heads_not_matching: List[FlowHead] = []
                 heads_failing: List[FlowHead] = []
+                heads_with_errors: List[Tuple[FlowHead, Exception]] = []
 
                 # Iterate over all potential head candidates and check if we have an event match
                 for flow_state_uid, head_uid in head_candidates:
@@ -322,9 +323,15 @@ def run_to_completion(state: State, external_event: Union[dict, Event]) -> State
                     head = flow_state.heads[head_uid]
                     element = get_element_from_head(state, head)
                     if element is not None and is_match_op_element(element):
-                        matching_score = _compute_event_matching_score(
-                            state, flow_state, head, event
-                        )
+                        try:
+                            matching_score = _compute_event_matching_score(
+                                state, flow_state, head, event
+                            )
+                        except Exception as e:
+                            # A runtime error in a match statement (e.g. an invalid pattern)
+                            # must only fail the related flow and not the event processing
+                            heads_with_errors.append((head, e))
+                            continue
 
                         if matching_score > 0.0:
                             # Successful event match
@@ -391,6 +398,10 @@ def run_to_completion(state: State, external_event: Union[dict, Event]) -> State
                     else:
                         flow_state = get_flow_state_from_head(state, head)
                         _abort_flow(state, flow_state, [])
+
+                # Abort all flows with a runtime error in the match statement
+                for head, error in heads_with_errors:
+                    _fail_flow_with_runtime_error(state, head, error)
 
                 # Advance front of all matching heads to actionable or match statements
                 for new_head in _advance_head_front(state, heads_matching):
@@ -747,6 +758,28 @@ def _handle_event_matching(
         #     pass
         # elif event.name == "PauseFlow":
         #     pass
+
+
+def _fail_flow_with_runtime_error(
+    state: State, head: FlowHead, error: Exception
+) -> None:
+    """Fail the flow of the head due to a runtime error and report it as ColangError event."""
+    flow_state = get_flow_state_from_head(state, head)
+    log.warning(
+        "Flow '%s' failed due to Colang runtime exception: %s",
+        flow_state.flow_id,
+        error,
+        exc_info=True,
+    )
+    colang_error_event = Event(
+        name="ColangError",
+        arguments={
+            "type": str(type(error).__name__),
+            "error": str(error),
+        },
+    )
+    _push_internal_event(state, colang_error_event)
+    _abort_flow(state, flow_state, head.matching_scores)
 
 
 def _resolve_action_conflicts(
